@@ -14,6 +14,27 @@
 //!   D           SyslogProcessor exactly as exec_syslogprocessor drives it (stages 0..3, drop_data_try);
 //!               needs bs >= SyslogProcessor::BLOCKSZ_MIN (0x40 without debug assertions)
 //!                 -> D <FileProcessingResult of the gate> <n> <beg,end,nlines,dt,hex>...
+//!
+//! cache mode (WP-A; every answer ends with the counters of `summary()` AFTER the operation):
+//!   CL <fo> / CLB <fo>   find_line / find_line_in_block on the stand-alone LineReader
+//!                 -> CL Found <7 fields as L> <lc> | CL Done <lc>
+//!                 -> CLB Found <7 fields> - <lc> | CLB Done <P,beg,end,hex | -> <lc>
+//!   CLE <0|1>     LineReader::LRU_cache_disable / _enable          -> CLE OK <lc>
+//!   CS <fo> / CSB <fo>   find_sysline / find_sysline_in_block on the SyslineReader
+//!                 -> CS Found <6 fields as S> <sc> | CS Done <sc>
+//!                 -> CSB Found <6 fields> <0|1> <sc> | CSB Done <partial_found 0|1> <sc>
+//!   CSE <0|1>     SyslineReader::LRU_cache_disable / _enable       -> CSE OK <sc>
+//!   CDD <bo>      SyslineReader::drop_data(bo)                     -> CDD OK <sc>
+//!   CDS <fo>      SyslineReader::drop_sysline(fo)                  -> CDS OK <sc>
+//!   CRD <plan>    the stage-3 driver loop on the CURRENT SyslineReader; plan = string of 0/1 (cyclic,
+//!                 `-` = never): whether the i-th drop_data_try opportunity runs drop_data(bo_first-2)
+//!                 -> CRD OK <sc> <n> <beg,end,nlines,dt,hex>...
+//!   T <hex>       the timestamp oracle on arbitrary bytes: a fresh SyslineReader on a file holding
+//!                 exactly these bytes, find_sysline(0)             -> T <dt seconds> | T None
+//!   lc = lines,stored_highest,hits,miss,lru_hit,lru_miss,lru_put,drop_ok,drop_errors
+//!   sc = syslines,stored_highest,hit,miss,range_hit,range_miss,range_put,lru_hit,lru_miss,lru_put,
+//!        parse_hit,parse_miss,parse_put,drop_ok,drop_errors,syslines stored,lines processed,
+//!        then the nine lc counters of the INNER LineReader (hook verif_linereader_summary)
 use s4lib::common::{FileOffset, FileType, FileTypeArchive, FileTypeTextEncoding, FPath, ResultS3};
 use s4lib::data::line::{LineP, LinePartPtrs};
 use s4lib::data::sysline::SyslineP;
@@ -153,6 +174,132 @@ fn stage_driver(path: &FPath, bs: u64) -> String {
     format!("D\tFileOk\t{}\t{}", items.len(), items.join("\t"))
 }
 
+fn lc(r: &LineReader) -> String {
+    let s = r.summary();
+    format!(
+        "{},{},{},{},{},{},{},{},{}",
+        s.linereader_lines,
+        s.linereader_lines_stored_highest,
+        s.linereader_lines_hits,
+        s.linereader_lines_miss,
+        s.linereader_find_line_lru_cache_hit,
+        s.linereader_find_line_lru_cache_miss,
+        s.linereader_find_line_lru_cache_put,
+        s.linereader_drop_line_ok,
+        s.linereader_drop_line_errors
+    )
+}
+
+fn sc(r: &SyslineReader) -> String {
+    let s = r.summary();
+    let l = r.verif_linereader_summary();
+    format!(
+        "{},{},{},{},{},{},{},{},{},{},{},{},{},{},{},{},{},{},{},{},{},{},{},{},{},{}",
+        s.syslinereader_syslines,
+        s.syslinereader_syslines_stored_highest,
+        s.syslinereader_syslines_hit,
+        s.syslinereader_syslines_miss,
+        s.syslinereader_syslines_by_range_hit,
+        s.syslinereader_syslines_by_range_miss,
+        s.syslinereader_syslines_by_range_put,
+        s.syslinereader_find_sysline_lru_cache_hit,
+        s.syslinereader_find_sysline_lru_cache_miss,
+        s.syslinereader_find_sysline_lru_cache_put,
+        s.syslinereader_parse_datetime_in_line_lru_cache_hit,
+        s.syslinereader_parse_datetime_in_line_lru_cache_miss,
+        s.syslinereader_parse_datetime_in_line_lru_cache_put,
+        s.syslinereader_drop_sysline_ok,
+        s.syslinereader_drop_sysline_errors,
+        r.count_syslines_stored(),
+        r.count_lines_processed(),
+        l.linereader_lines,
+        l.linereader_lines_stored_highest,
+        l.linereader_lines_hits,
+        l.linereader_lines_miss,
+        l.linereader_find_line_lru_cache_hit,
+        l.linereader_find_line_lru_cache_miss,
+        l.linereader_find_line_lru_cache_put,
+        l.linereader_drop_line_ok,
+        l.linereader_drop_line_errors
+    )
+}
+
+fn line_fields(fo_next: FileOffset, linep: &LineP) -> String {
+    format!(
+        "{}\t{}\t{}\t{}\t{}\t{}\t{}",
+        fo_next,
+        linep.fileoffset_begin(),
+        linep.fileoffset_end(),
+        linep.count_lineparts(),
+        linep.blockoffset_first(),
+        linep.blockoffset_last(),
+        hex(&line_bytes(linep))
+    )
+}
+
+fn sysline_fields(fo_next: FileOffset, s: &SyslineP) -> String {
+    format!(
+        "{}\t{}\t{}\t{}\t{}\t{}",
+        fo_next,
+        s.fileoffset_begin(),
+        s.fileoffset_end(),
+        s.count_lines(),
+        s.dt().timestamp(),
+        hex(&s.verif_bytes())
+    )
+}
+
+/// the stage-3 loop of exec_syslogprocessor on the given reader, drop_data_try as planned
+fn cached_driver(slr: &mut SyslineReader, plan: &[bool]) -> String {
+    let mut items: Vec<String> = Vec::new();
+    let mut fo1: FileOffset;
+    match slr.find_sysline(0) {
+        ResultS3::Found((fo, syslinep)) => {
+            fo1 = fo;
+            let is_last = slr.is_sysline_last(&syslinep);
+            items.push(sysline_item(&syslinep));
+            if is_last {
+                return format!("CRD\tOK\t{}\t{}\t{}", sc(slr), items.len(), items.join("\t"));
+            }
+        }
+        ResultS3::Done => return format!("CRD\tOK\t{}\t0\t", sc(slr)),
+        ResultS3::Err(_) => return "CRD\tErr".to_string(),
+    }
+    let mut syslinep_last_opt: Option<SyslineP> = None;
+    let mut i: usize = 0;
+    loop {
+        match slr.find_sysline(fo1) {
+            ResultS3::Found((fo, syslinep)) => {
+                let syslinep_tmp = syslinep.clone();
+                let is_last = slr.is_sysline_last(&syslinep);
+                items.push(sysline_item(&syslinep));
+                fo1 = fo;
+                if is_last {
+                    break;
+                }
+                if let Some(syslinep_last) = syslinep_last_opt {
+                    let run = !plan.is_empty() && plan[i % plan.len()];
+                    i += 1;
+                    if run {
+                        // SyslogProcessor::drop_data_try without the drop_block_last shortcut
+                        let bo_first = (*syslinep_last).blockoffset_first();
+                        if bo_first > 1 {
+                            slr.drop_data(bo_first - 2);
+                        }
+                    }
+                }
+                syslinep_last_opt = Some(syslinep_tmp);
+            }
+            ResultS3::Done => break,
+            ResultS3::Err(_) => return "CRD\tErr".to_string(),
+        }
+        if items.len() > 1_000_000 {
+            return "CRD\tLOOP".to_string();
+        }
+    }
+    format!("CRD\tOK\t{}\t{}\t{}", sc(slr), items.len(), items.join("\t"))
+}
+
 fn main() {
     let dir = std::env::args().nth(1).expect("usage: c02 <scratch dir>");
     std::panic::set_hook(Box::new(|_| {}));
@@ -240,6 +387,126 @@ fn main() {
                     slr = SyslineReader::new(path.clone(), FT, bs, tz()).ok();
                 }
                 println!("{}", out);
+            }
+            "CL" | "CLB" | "CLE" => {
+                let out = match lr.as_mut() {
+                    None => format!("{}\tNoReader", cmd),
+                    Some(r) => {
+                        let res = catch_unwind(AssertUnwindSafe(|| match cmd {
+                            "CL" => {
+                                let fo: FileOffset = arg.parse().unwrap_or(0);
+                                match r.find_line(fo) {
+                                    ResultS3::Found((n, lp)) => format!("CL\tFound\t{}\t{}", line_fields(n, &lp), lc(r)),
+                                    ResultS3::Done => format!("CL\tDone\t{}", lc(r)),
+                                    ResultS3::Err(_) => "CL\tErr".to_string(),
+                                }
+                            }
+                            "CLB" => {
+                                let fo: FileOffset = arg.parse().unwrap_or(0);
+                                let (res, part) = r.find_line_in_block(fo);
+                                let ps = match part {
+                                    None => "-".to_string(),
+                                    Some(line) => {
+                                        let lp = LineP::new(line);
+                                        format!("P,{},{},{}", lp.fileoffset_begin(), lp.fileoffset_end(), hex(&line_bytes(&lp)))
+                                    }
+                                };
+                                match res {
+                                    ResultS3::Found((n, lp)) => format!("CLB\tFound\t{}\t{}\t{}", line_fields(n, &lp), ps, lc(r)),
+                                    ResultS3::Done => format!("CLB\tDone\t{}\t{}", ps, lc(r)),
+                                    ResultS3::Err(_) => "CLB\tErr".to_string(),
+                                }
+                            }
+                            _ => {
+                                if arg == "1" {
+                                    r.LRU_cache_enable();
+                                } else {
+                                    r.LRU_cache_disable();
+                                }
+                                format!("CLE\tOK\t{}", lc(r))
+                            }
+                        }));
+                        match res {
+                            Ok(s) => s,
+                            Err(_) => format!("{}\tPANIC", cmd),
+                        }
+                    }
+                };
+                if out.ends_with("PANIC") {
+                    lr = LineReader::new(path.clone(), FT, bs).ok();
+                }
+                println!("{}", out);
+            }
+            "CS" | "CSB" | "CSE" | "CDD" | "CDS" | "CRD" => {
+                let out = match slr.as_mut() {
+                    None => format!("{}\tNoReader", cmd),
+                    Some(r) => {
+                        let res = catch_unwind(AssertUnwindSafe(|| match cmd {
+                            "CS" => {
+                                let fo: FileOffset = arg.parse().unwrap_or(0);
+                                match r.find_sysline(fo) {
+                                    ResultS3::Found((n, sp)) => format!("CS\tFound\t{}\t{}", sysline_fields(n, &sp), sc(r)),
+                                    ResultS3::Done => format!("CS\tDone\t{}", sc(r)),
+                                    ResultS3::Err(_) => "CS\tErr".to_string(),
+                                }
+                            }
+                            "CSB" => {
+                                let fo: FileOffset = arg.parse().unwrap_or(0);
+                                let (res, pf) = r.find_sysline_in_block(fo);
+                                match res {
+                                    ResultS3::Found((n, sp)) => {
+                                        format!("CSB\tFound\t{}\t{}\t{}", sysline_fields(n, &sp), pf as u8, sc(r))
+                                    }
+                                    ResultS3::Done => format!("CSB\tDone\t{}\t{}", pf as u8, sc(r)),
+                                    ResultS3::Err(_) => "CSB\tErr".to_string(),
+                                }
+                            }
+                            "CSE" => {
+                                if arg == "1" {
+                                    r.LRU_cache_enable();
+                                } else {
+                                    r.LRU_cache_disable();
+                                }
+                                format!("CSE\tOK\t{}", sc(r))
+                            }
+                            "CDD" => {
+                                r.drop_data(arg.parse().unwrap_or(0));
+                                format!("CDD\tOK\t{}", sc(r))
+                            }
+                            "CDS" => {
+                                let fo: FileOffset = arg.parse().unwrap_or(0);
+                                r.drop_sysline(&fo);
+                                format!("CDS\tOK\t{}", sc(r))
+                            }
+                            _ => {
+                                let plan: Vec<bool> = arg.chars().filter(|c| *c == '0' || *c == '1').map(|c| c == '1').collect();
+                                cached_driver(r, &plan)
+                            }
+                        }));
+                        match res {
+                            Ok(s) => s,
+                            Err(_) => format!("{}\tPANIC", cmd),
+                        }
+                    }
+                };
+                if out.ends_with("PANIC") {
+                    slr = SyslineReader::new(path.clone(), FT, bs, tz()).ok();
+                }
+                println!("{}", out);
+            }
+            "T" => {
+                let p = format!("{}/oracle.log", dir);
+                std::fs::write(&p, unhex(arg)).expect("write");
+                let out = catch_unwind(AssertUnwindSafe(|| {
+                    match SyslineReader::new(p.clone(), FT, 0x10000, tz()) {
+                        Ok(mut r) => match r.find_sysline(0) {
+                            ResultS3::Found((_, sp)) => format!("T\t{}", sp.dt().timestamp()),
+                            _ => "T\tNone".to_string(),
+                        },
+                        Err(_) => "T\tNone".to_string(),
+                    }
+                }));
+                println!("{}", out.unwrap_or_else(|_| "T\tPANIC".to_string()));
             }
             "R" => {
                 let p = path.clone();
